@@ -303,10 +303,10 @@ PROPS = {
     'C18': {
         'proofs': ['Ww.Proofs.C18'],
         'gen_sections': ['LogSites'],
-        'drivers': [{'name': 'c20'}, {'name': 'hist'}, {'name': 'c02'}, {'name': 'c13'}, {'name': 'cook'}, {'name': 'fault', 'timeout': 1500}],
+        'drivers': [{'name': 'c20'}, {'name': 'hist'}, {'name': 'c02'}, {'name': 'c13'}, {'name': 'cook'}, {'name': 'c09'}, {'name': 'fault', 'timeout': 1500}],
         'reasons': ['C18.'],
         'class_fields': {'logscan': ['where', 'kind', 'found'], 'start20': ['key', 'jwk', 'secret', 'redissecret', 'viaenv', 'listening']},
-        'nontrivial': _merge({k: (lambda f: False) for k in ['hstep', 'hstart', 'hafter', 'cb', 'login13', 'fresh13', 'setcookie', 'jar', 'retrychain', 'retryreset', 'ratelimit', 'fault', 'faultdry']},
+        'nontrivial': _merge({k: (lambda f: False) for k in ['hstep', 'hstart', 'hafter', 'cb', 'login13', 'fresh13', 'burst13', 'setcookie', 'jar', 'cookieval14', 'retrychain', 'retryreset', 'ratelimit', 'fault', 'faultdry', 'crypt', 'nonces', 'cookiedec', 'tamper09', 'relogin09', 'outscan']},
                              {'logscan': lambda f: True, 'start20': lambda f: f.get('redissecret') != 'none' or f.get('secret') == '1' or f.get('key') == 'ok'}),
         'rule': "Monitor: logrus captured process-wide at TRACE level while the hist, c02, c13, cook and fault drivers run (histories, callback lattice, login visits, cookie/error paths, fault injection); every secret the harness learns "
                 "(tokens issued by the fake provider, code verifiers, client assertions, client secret, every Set-Cookie value, session data keys in raw/base64/hex, the deployment key) is searched in everything logged. "
